@@ -4,9 +4,11 @@ CONSTANT MetricVals <- ValsQuick
 CONSTANT Deltas <- DeltasAll
 CONSTANT FullOrders <- DocOrdersOnly
 CONSTANT Rotations <- RotQuick
+CONSTANT ScaledOrders <- DocOrdersOnly
 CONSTANT Deviation = "none"
 INVARIANT RewardIsDocumentedCombination
 INVARIANT NormalisedByKind
+INVARIANT PositiveMaxBecomesOne
 INVARIANT DistinctColumns
 INVARIANT NormalisedAtMostOne
 INVARIANT NormalisedAttainsOne
